@@ -368,10 +368,10 @@ def gen_cs(rng, tier):
         + [[SYNC[0], ["aw", ["await"], [S7]]], [SYNC[1], ["aw", ["aclose"], [S7]]]]
     for k, p in enumerate(progs):
         for c in CTXS:
-            for ph in (few if (not quick or k % 3 == 0) else few[k % 5::5]):
+            for ph in (few if (not quick or k % 4 == 0) else few[k % 5::5]):
                 yield with_ctx(c, prog=p, phases=ph)
     allctx = CTXS + CTXS_MORE
-    for i in range(1500 if quick else 40000):
+    for i in range(1000 if quick else 30000):
         p = X.canon(X.random_prog(rng, rng.choice([4, 6, 8, 11, 14]), in_handler=(i % 7 == 3)))
         yield with_ctx(rng.choice(allctx), prog=p, phases=random_phases(rng))
 
@@ -408,7 +408,7 @@ def gen_cawait(rng, tier):
             for ops in ([[S7], [TE1], [TGE], [CL]] if (not quick or k % 2 == 0) else [[S7, TGE]]):
                 yield with_ctx(c, prog=p, ops=ops)
     allctx = CTXS + CTXS_MORE
-    for i in range(700 if quick else 20000):
+    for i in range(700 if quick else 15000):
         p = X.canon(X.random_prog(rng, rng.choice([4, 6, 8, 11, 14]), in_handler=(i % 7 == 3)))
         yield with_ctx(rng.choice(allctx), prog=p,
                        ops=C.random_ops(rng, rng.choice([1, 2, 3, 5, 7]), start=False))
@@ -427,7 +427,7 @@ def gen_eager(rng, tier):
         for c in EAGER_CTXS[:2]:
             for ops in ([[S7], [TGE]] if (not quick or k % 2 == 0) else [[TE1, CL]]):
                 yield with_ctx(c, prog=p, ops=ops)
-    for i in range(500 if quick else 15000):
+    for i in range(500 if quick else 10000):
         p = X.canon(X.random_prog(rng, rng.choice([4, 6, 8, 11, 14]), in_handler=(i % 7 == 3)))
         yield with_ctx(rng.choice(EAGER_CTXS), prog=p,
                        ops=C.random_ops(rng, rng.choice([1, 2, 3, 5, 7]), start=False))
@@ -541,7 +541,8 @@ PROP = Prop(
     props_v="theories/Props/C04.v",
     theory_files=["theories/Coro/Tree.v", "theories/Coro/Native.v", "theories/Coro/Prog.v",
                   "theories/Coro/TreeProofs.v", "theories/Coro/Relay.v", "theories/Coro/RelayProofs.v",
-                  "theories/Coro/Context.v", "theories/Coro/ContextProofs.v", "theories/Coro/ContextCorr.v"],
+                  "theories/Coro/Context.v", "theories/Coro/ContextProofs.v", "theories/Coro/ContextProgProofs.v",
+                  "theories/Coro/ContextCorr.v"],
     streams=[
         _stream("f3", gen_f3, impl_any, "paths of finding F3 (Context.v)"),
         _stream("cs", gen_cs, impl_cs, "CoroStart with context= (Context.v run_corostart)"),
